@@ -256,6 +256,14 @@ def gen_b(rng, sched_rng, tier: str) -> Dict[str, Any]:
     storm = rng.random()
     compile_storm = storm < 0.3  # every thread compiles on ONE shared environment at the same time
     function_storm = 0.3 <= storm < 0.55  # every thread evaluates function-extension filters on ONE environment
+    nondet_storm = 0.55 <= storm < 0.68  # every thread evaluates descendant/wildcard queries on ONE nondeterministic environment
+    if nondet_storm:
+        setup.append({"op": "new_env", "id": "en", "spec": {"funcs": [], "attrs": {"nondeterministic": True}}})
+        ncompiled = []
+        for i in range(rng.randint(2, 3)):
+            q = rng.choice(("$..*", "$..[*]", "$..[?@.a]", "$[*]", "$..a", "$..[*, *]", "$[*]..[*]", "$..[?@ == $[0]]", "$..[0]"))
+            setup.append({"op": "compile", "id": f"n{i}", "env": "en", "q": q})
+            ncompiled.append(f"n{i}")
     storm_env = rng.choice(envs)
     if function_storm:
         # string-rich documents and shared compiled queries that call match/search/length/count/value
@@ -283,6 +291,11 @@ def gen_b(rng, sched_rng, tier: str) -> Dict[str, Any]:
                     q = rng.choice(Q.INVALID_TEXTS)
                 prog.append({"op": "compile", "id": cid, "env": storm_env, "q": q})
                 prog.append({"op": "apply", "c": cid, "doc": rng.choice(docs), "entry": rng.choice(H.ENTRIES)})
+            programs[name] = prog
+            continue
+        if nondet_storm:
+            for _ in range(rng.randint(3, 6)):
+                prog.append({"op": "apply", "c": rng.choice(ncompiled), "doc": rng.choice(docs), "entry": rng.choice(("find", "find", "finditer"))})
             programs[name] = prog
             continue
         if function_storm:
